@@ -113,6 +113,7 @@ func (e *verifC14Exec) Execute(env map[string]string, cmd string, stdin io.Reade
 type verifC14Pend struct {
 	wkr  *worker
 	uuid int
+	rr   *remoteRunner
 	call *verifC14Call
 }
 
@@ -370,10 +371,11 @@ func (d *verifC14Driver) op(op string) error {
 			return nil
 		}
 		var chosen *worker
+		var chosenRR *remoteRunner
 		wp.mtx.Lock()
 		for _, w := range wp.workers {
 			if rr, ok := w.starting[uuid]; ok && before[w] != rr {
-				chosen = w
+				chosen, chosenRR = w, rr
 				d.runners = append(d.runners, rr)
 				d.owner[rr] = w
 			}
@@ -385,7 +387,7 @@ func (d *verifC14Driver) op(op string) error {
 		}
 		wid := verifC14InstNum(chosen.instance.ID())
 		c := d.await(func(c *verifC14Call) bool { return c.kind == "start" && c.wid == wid && c.uuid == u }, nil)
-		d.pend = append(d.pend, &verifC14Pend{wkr: chosen, uuid: u, call: c})
+		d.pend = append(d.pend, &verifC14Pend{wkr: chosen, uuid: u, rr: chosenRR, call: c})
 		d.out = append(d.out, fmt.Sprintf("w%d%s", wid, pre[chosen]))
 	case "sd":
 		u, e1 := num(0)
@@ -395,11 +397,13 @@ func (d *verifC14Driver) op(op string) error {
 		for i, p := range d.pend {
 			if p.uuid == u {
 				d.pend = append(d.pend[:i], d.pend[i+1:]...)
+				// the completion closure stamps wkr.busy (and wkr.updated) with time.Now(): release
+				// the remote command and wait until it has run
 				wp.mtx.Lock()
-				upd := p.wkr.updated
+				busy, upd := p.wkr.busy, p.wkr.updated
 				wp.mtx.Unlock()
 				p.call.resp <- verifC14Resp{}
-				d.waitUntil(func() bool { return p.wkr.updated != upd })
+				d.waitUntil(func() bool { return p.wkr.busy != busy || p.wkr.updated != upd })
 				break
 			}
 		}
